@@ -32,7 +32,7 @@ META = {
             "can leave in yyVAL (composite literal / constructor result type, nil, copy of $k, unknown), every type assertion without ok and every method call on a yyDollar[k] value (25 + 1 sites), every index / slice expression with its length guard, and what the actions call; "
             "the least solution 'types of a symbol' is a certificate Lean re-checks (closed under every source of every action; every assertion satisfied by every type of its operand's symbol, nil only where the action excluded it: lalr_action_assertions_typed), "
             "and typed_stack_invariant proves for ALL token lists, all fuel and EVERY choice the actions make (an oracle) that each stack value has a type of the symbol its state was entered on - from table facts inside lalr_tables_wf: a reduction by p pops states entered on exactly the symbols of p "
-            "(the right-hand sides are a certificate checked against yyChk for every state that can lie at that depth), the goto pushes a state entered on p's nonterminal; hence lalr_actions_never_panic and parse_never_panics (driver + actions: accept or a syntax error inside the input, nothing else). "
+            "(the right-hand sides are a certificate checked against yyChk for every state that can lie at that depth), the goto pushes a state entered on p's nonterminal; hence lalr_actions_never_panic and parse_never_panics (driver + actions: accept or a syntax error inside the input, nothing else); the index / slice expressions of the actions are each under a length test of the same action (extractor's guard analysis) except Literal[0] of a PLACEHOLDER token, in range by scan_placeholder_literal_nonempty (scanner model, all rune strings); pinned: gen_action_index_sites_reviewed / _callees_ / _helpers_. "
             "PARTIAL: the rest of the grammar layer (other statements, set operators, sub-selects, INTO / WITH / FOR UPDATE / FETCH / LATERAL, BETWEEN / IN / NOT LIKE / ANY / ALL / row values, functions; the BODIES of the semantic actions, that the goyacc tables implement the grammar of parser.y, the other String() methods) is not modelled - "
             "parser.Parse totality, error positions, print/parse fixpoint and evaluation agreement are validated by correspondence only "
             "(corpus + grammar-aware mutation + generated queries, all four prepared x ansi-quotes modes)",
@@ -66,7 +66,7 @@ def run(run):
     run.regen("lalr-tables", ["go", "run", "-C", "extract/lalr", ".", "tables"], "Csvq/Gen/LalrTables.lean")
     run.regen("lalr-driver", ["go", "run", "-C", "extract/lalr", ".", "driver"], "Csvq/Gen/LalrDriver.lean")
     run.regen("lalr-actions", ["go", "run", "-C", "extract/lalr", ".", "actions"], "Csvq/Gen/LalrActions.lean")
-    run.obligations_for(["Csvq.Props.C18", "Csvq.Props.C18Lalr", "Csvq.Props.C18LalrActions"])
+    run.obligations_for(["Csvq.Props.C18", "Csvq.Props.C18Lalr", "Csvq.Props.C18LalrActions", "Csvq.Props.C18LalrSites"])
     run.stream("c18", 30000 if q else 400000)
     if not q:
         for k in range(1, 5):
@@ -91,5 +91,5 @@ def run(run):
             "extract/lalr actions: go/types over lib/parser (static type of an assigned expression = dynamic type of the value; implements-relation), the length-guard analysis of index sites, the pinned lists of Ref/LalrActions.lean",
             "the values (not the types) the semantic actions build, goyacc's table construction (tables = grammar), String() methods other than the unary operators (validated by correspondence only)",
         ],
-        checker_cmd="cd /verif/lean && lake build Csvq.Props.C18 Csvq.Props.C18Lalr Csvq.Props.C18LalrActions && lake env lean <#print axioms for every theorem>",
+        checker_cmd="cd /verif/lean && lake build Csvq.Props.C18 Csvq.Props.C18Lalr Csvq.Props.C18LalrActions Csvq.Props.C18LalrSites && lake env lean <#print axioms for every theorem>",
     )
